@@ -106,7 +106,7 @@ func TestVerifC07Sys(t *testing.T) {
 	}()
 	depth := 6
 	if vres.Thorough() {
-		depth = 8
+		depth = 9
 	}
 	if vres.ReplayPath() != "" {
 		var rp vh.HReplay
